@@ -281,6 +281,19 @@ func runSched(bin string, scenarios []string, bound int, procs int, maxExec int6
 	return tot, per, firstErr
 }
 
+// numBodies asks the explorer how many call bodies it has.
+func numBodies(bin string) int {
+	out, err := exec.Command(bin, "bodies").Output()
+	if err != nil {
+		return 0
+	}
+	var b []map[string]any
+	if json.Unmarshal(out, &b) != nil {
+		return 0
+	}
+	return len(b)
+}
+
 func multisets(menu []int, k int) [][]int {
 	var out [][]int
 	var rec func(start int, cur []int)
@@ -366,8 +379,17 @@ func CheckC14(r *Report) {
 			}
 		}
 		// body indices: see mc/bodies/bodies.go
-		parseBodies := []int{0, 1, 2, 3, 4, 5, 6, 7, 8, 9}
-		allBodies := []int{0, 1, 2, 3, 4, 5, 6, 7, 8, 9, 10, 11, 12, 13, 14, 15}
+		nb := numBodies(bin)
+		if nb < 18 {
+			r.Note("explorer reports %d bodies (expected >= 18)", nb)
+			r.NotExhaustive("body menu incomplete")
+			nb = 18
+		}
+		parseBodies := []int{0, 1, 2, 3, 4, 5, 6, 7, 8, 9, 10, 11}
+		var allBodies []int
+		for i := 0; i < nb; i++ {
+			allBodies = append(allBodies, i)
+		}
 		// (1) 2 threads x 1 call: all unordered pairs of all bodies, complete
 		var s []string
 		for _, p := range multisets(allBodies, 2) {
@@ -396,9 +418,9 @@ func CheckC14(r *Report) {
 		rec(nil)
 		add(fmt.Sprintf("sequential histories up to depth %d (complete, pool answers explored)", depth), s, -1, 0)
 		// (3) 2 threads x 2 calls
-		menu22 := []int{0, 1, 7, 10}
+		menu22 := []int{0, 1, 7, 12}
 		if thorough {
-			menu22 = []int{0, 1, 5, 7, 10}
+			menu22 = []int{0, 1, 5, 7, 12}
 		}
 		s = nil
 		for _, a := range menu22 {
@@ -416,7 +438,7 @@ func CheckC14(r *Report) {
 		// (4) 3 threads x 1 call
 		s = nil
 		if thorough {
-			for _, p := range multisets([]int{0, 1, 5, 7, 10}, 3) {
+			for _, p := range multisets([]int{0, 1, 5, 7, 12}, 3) {
 				s = append(s, scnOf([]int{p[0]}, []int{p[1]}, []int{p[2]}))
 			}
 			add("3 threads x 1 call (complete, no preemption bound)", s, -1, 0)
